@@ -3,7 +3,7 @@
    equal (==) to the one sought"; the searches of the model are the code's own early-exit loops
    (match test before the visited test in bfs; on discovery in _dfs_recur, a hit propagated
    with `is not None`; on pop in dfs_iterative). *)
-From EG Require Import Base State Nbrs Trav SearchProofs.
+From EG Require Import Base State Nbrs Trav SearchProofs StartMember.
 
 Theorem C08_bfs_returns_first_match_of_bft : forall nb uni m f1 f2 start out r,
   bft nb uni all f1 start = TOk out -> bfs nb uni m f2 start = r -> r <> SFuel -> r = SOk (find m out).
@@ -84,3 +84,20 @@ Print Assumptions C08_heap_bfs.
 Print Assumptions C08_heap_dfs_recursive.
 Print Assumptions C08_heap_dfs_iterative.
 Print Assumptions C08_heap_searches_terminate.
+
+(* "a vertex outside the universe ... is never returned" - stated on the searches themselves (no appeal to a traversal
+   that succeeds), for every fuel; and from a start vertex that is no member of the (non-empty) universe there is no listing
+   to be first in: all three searches refuse it *)
+Theorem C08_result_is_a_member_of_the_universe : forall nb uni m fuel start v,
+  (bfs nb uni m fuel start = SOk (Some v) -> inU uni v = true) /\
+  (dfs_rec nb uni m fuel start = SOk (Some v) -> inU uni v = true) /\
+  (dfs_iter nb uni m fuel start = SOk (Some v) -> inU uni v = true).
+Proof. exact search_result_is_member. Qed.
+Theorem C08_start_outside_universe_is_refused : forall nb uni m fuel start,
+  uni <> Some [] -> inU uni (Some start) = false ->
+  bfs nb uni m fuel start = SErr ValueError /\
+  dfs_rec nb uni m fuel start = SErr ValueError /\
+  dfs_iter nb uni m fuel start = SErr ValueError.
+Proof. exact nonmember_start_refused_search. Qed.
+Print Assumptions C08_result_is_a_member_of_the_universe.
+Print Assumptions C08_start_outside_universe_is_refused.
